@@ -125,7 +125,6 @@ PROPS = {
         "assumptions": ["inner-chunk elision inside shards is observed through reads and through C05's shard parser, not through the key listing"],
     },
     "C18": {
-        "claimed": False,
         "lean_props": ["ZarrsModel.Props.C18"],
         "harness": "c18",
         "driver_gen": True,
